@@ -293,7 +293,9 @@ def targets_come_from_the_requested_places(eng, tier, seed):
 
 from .fsprobe import extra_spelling_probe  # noqa: E402  bounded stand-in for the file-system part (shared with C15)
 
-EXTRA_CHECKS = [determinism_census, hash_seed_probe, targets_come_from_the_requested_places, extra_spelling_probe]
+from .reader_link import reader_contracts  # noqa: E402  the reader's bookkeeping, proved in its own process (C10R)
+
+EXTRA_CHECKS = [determinism_census, hash_seed_probe, targets_come_from_the_requested_places, extra_spelling_probe, reader_contracts]
 
 
 # ------------------------------------------------------------------------------------------------ bounded stand-ins
@@ -470,12 +472,15 @@ NATIVE_BUDGET = {"quick": 150, "thorough": 2000}
 NOT_COVERED = [
     "rglob completeness (exactly one definition per *.dsdl / *.uavcan file under the root), symlinks, relative / absolute "
     "spelling of directory arguments, enumeration order of the operating system: file system, out of reach",
-    "_read_definitions / read_definitions bookkeeping (direct and transitive disjoint, level-0 targets in direct, one object "
-    "per path, results sorted) and the iterable form of normalize_paths_argument_to_list (order-preserving de-duplication "
-    "through a stateful filter over elements of mixed type): only bounded native stand-ins (coverage.bounded); the engine "
-    "does not model sets of objects mutated through parameters and nested visitor classes.  "
-    "_ensure_no_namespace_name_collisions_or_nested_root_namespaces and the scalar forms of "
-    "normalize_paths_argument_to_list are proved in specs/c10_dirs.py relative to assumed pathlib relations",
+    "_read_definitions / read_definitions bookkeeping (direct and transitive disjoint, level-0 targets in direct incl. "
+    "promotion, deeper levels only in transitive, one object per path, termination) is proved in its own process (runner C10R, "
+    "specs/c10_reader.py; extra check reader_contracts, reported under extra_checks) relative to the assumed model of "
+    "ReadableDSDLFile.read; that the result lists are in file_sort order rests on C10's file_sort contract applied to an "
+    "arbitrary enumeration of the set (JUSTIFIED census entries); the bounded native stand-in stays as a cross-check",
+    "the iterable form of normalize_paths_argument_to_list (order-preserving de-duplication through a stateful filter over "
+    "elements of mixed type): bounded native stand-in only.  _ensure_no_namespace_name_collisions_or_nested_root_namespaces "
+    "and the scalar forms of normalize_paths_argument_to_list are proved in specs/c10_dirs.py relative to assumed pathlib "
+    "relations",
     "that read_files yields the same types as read_namespace for the same files",
 ]
 EXPLANATION = ("file_sort / get_definition_ordering_rank are proved against the order of the statement relative to the "
